@@ -37,14 +37,16 @@ LEVEL_TEXT = ("Lean 4 theorems over transliterations of normalize_chunks / block
               "merge_to_number_spec (all paths incl. the heap loop with lazy deletion: same total, positive, exactly "
               "max_number chunks; zero-length chunks accepted), divide_to_width_spec, balance_chunksizes_valid, find_split_valid, "
               "find_merge_valid, find_merge_never_raises (both assertions of find_merge_rechunk hold, no division by zero, "
-              "the result fits the limit - for every duplicate-free candidate order), merge_to_number_never_raises (heap "
-              "invariant: no pop from an empty heap, no index past the end, no None+int, for max_number >= 1 and any chunks), "
-              "plan_rechunk_never_raises (the modelled plan_rechunk raises nowhere on valid chunkings), plan_rechunk_stages_valid "
+              "the result fits the limit - for every duplicate-free candidate order), merge_to_number_total (heap "
+              "invariant: no pop from an empty heap, no index past the end, no None+int, and the lazy-deletion loop terminates "
+              "within its fuel - for max_number >= 1 and any chunks), plan_rechunk_total / plan_rechunk_never_raises (the "
+              "modelled plan_rechunk returns on valid chunkings; the only error left is an observed candidate order that does "
+              "not fit), plan_rechunk_stages_valid "
               "(every stage of every plan is a valid chunking of the shape and the plan ends with the target, for every "
               "threshold / byte limit / candidate order), plan_compose, plan_rechunk_exact (executing the modelled plan "
               "stage by stage yields exactly the requested chunks over unchanged data). VALIDATED ONLY: the byte limit "
               "with previous_chunks (false as stated: documented tolerance, known finding), termination of the auto_chunks "
-              "fix-point loop, of merge_to_number's heap loop (fuel) and of plan_rechunk's loop (observed), the float "
+              "fix-point loop and of plan_rechunk's `while True` (both depend on floats; observed), the float "
               "arithmetic itself (k-th root, log-ratio sort key, int(a*b/c)), "
               "the graph construction of _compute_rechunk (keys, getitem/concatenate_shaped per axis) - checked at API level "
               "against NumPy, block shapes, and with several rechunks of one source merged into one graph.")
@@ -64,12 +66,11 @@ ASSUMPTIONS = [
     "find_merge_rechunk: the candidate order (sorted by log(gse)/log(bse)) is a parameter (observed; the model checks it is a "
     "permutation of the candidates); block_size_limit/itemsize and int(a*b/c) are computed as exact fractions / floor "
     "division - equal to the float code for power-of-two item sizes and sizes far below 2**53 (the plan diff skips other item sizes)",
-    "heapq of distinct (width, i, j) tuples = repeated extraction of the least tuple (layout irrelevant); fuel (n+2)^2 of the "
-    "modelled merge loop is never exhausted in the diff",
+    "heapq of distinct (width, i, j) tuples = repeated extraction of the least tuple (layout irrelevant)",
     "getitem with a tuple of slices and concatenate_shaped on in-memory blocks act axis by axis (NumPy)",
 ]
-TRUSTED = ["termination of auto_chunks' `while multiplier_remaining`, merge_to_number's `while nmerges > 0` and plan_rechunk's "
-           "`while True` is observed (per-case watchdog), not proved",
+TRUSTED = ["termination of auto_chunks' `while multiplier_remaining` and plan_rechunk's `while True` is observed (per-case "
+           "watchdog), not proved (merge_to_number's `while nmerges > 0` is: merge_to_number_total)",
            "HighLevelGraph/Task construction in _compute_rechunk: validated at API level (values, block shapes, key "
            "distinctness of two rechunks of one source)"]
 
